@@ -58,7 +58,7 @@ Dictionary::Ptr DowntimeNameComposer::ParseName(const String& name) const
 {
 	std::vector<String> tokens = name.Split("!");
 
-	if (tokens.size() < 2)
+	if (tokens.size() < 2 || tokens.size() > 3 || (tokens.size() == 3 && tokens[1].IsEmpty()))
 		BOOST_THROW_EXCEPTION(std::invalid_argument("Invalid Downtime name."));
 
 	Dictionary::Ptr result = new Dictionary();
